@@ -17,6 +17,17 @@ pub assume_specification [SnapshotData::size_approx] (s: &SnapshotData) -> (r: u
 /// the clock is an input: whether a delta is younger / older than N seconds when the update is computed
 pub uninterp spec fn is_younger(d: DeltaData, secs: i64) -> bool;
 pub uninterp spec fn is_older(d: DeltaData, secs: i64) -> bool;
+// ---- one iteration of apply_rrdp_updated: ASSUMED contracts of the callees (SnapshotData::apply_delta is verified in unit c11_snapshot) ----
+pub uninterp spec fn staged_as_delta(s: StagedElements) -> DeltaElements;
+pub uninterp spec fn snap_apply(s: SnapshotData, p: PublisherHandle, d: DeltaElements) -> SnapshotData;
+pub uninterp spec fn de_append(a: DeltaElements, b: DeltaElements) -> DeltaElements;
+pub assume_specification [SnapshotData::apply_delta] (s: &mut SnapshotData, p: &PublisherHandle, d: DeltaElements) ensures *final(s) == snap_apply(*old(s), *p, d);
+pub assume_specification [DeltaElements::append] (a: &mut DeltaElements, o: DeltaElements) ensures *final(a) == de_append(*old(a), o);
+impl vstd::std_specs::convert::FromSpecImpl<StagedElements> for DeltaElements {
+    open spec fn obeys_from_spec() -> bool { true }
+    open spec fn from_spec(v: StagedElements) -> DeltaElements { staged_as_delta(v) }
+}
+pub assume_specification [<DeltaElements as From<StagedElements>>::from] (s: StagedElements) -> (r: DeltaElements) ensures r == staged_as_delta(s);
 pub open spec fn sum_sizes(ds: Seq<DeltaData>, n: int) -> int decreases n {
     if n <= 0 { 0 } else { sum_sizes(ds, n - 1) + de_size(ds[n - 1].elements) as int }
 }
@@ -40,7 +51,9 @@ pub type PathBuf = std::path::PathBuf;
 pub struct StagedMap<K, V>(pub Vec<(K, V)>);
 pub type HashMap<K, V> = StagedMap<K, V>;
 impl DeltaElements { pub fn size_approx(&self) -> usize { unimplemented!() } }
-impl SnapshotData { pub fn size_approx(&self) -> usize { unimplemented!() } }
+impl SnapshotData { pub fn size_approx(&self) -> usize { unimplemented!() } pub fn apply_delta(&mut self, _p: &PublisherHandle, _d: DeltaElements) { unimplemented!() } }
+impl DeltaElements { pub fn append(&mut self, _o: DeltaElements) { unimplemented!() } }
+impl From<StagedElements> for DeltaElements { fn from(_s: StagedElements) -> Self { unimplemented!() } }
 ''')
     U.add('#[verifier::external_type_specification] #[verifier::external_body] pub struct ExHttps(uri::Https);')
     U.struct(RR, 'DeltaData', derive=['Clone'])
@@ -55,6 +68,16 @@ impl SnapshotData { pub fn size_approx(&self) -> usize { unimplemented!() } }
         U.fn(RR, 'DeltaData', 'older_than_seconds', external_body=True, ensures=[('clock', 'r == is_older(*self, seconds)')]),
     ])
     U.impl('impl RrdpServer', [
+        # apply_rrdp_updated iterates the staged map by value (outside the verifier); one iteration (loop body lifted, R17):
+        # the staged changes of a publisher go into the snapshot AND into the next RRDP delta, the same elements to both
+        U.loop_fn(RR, 'RrdpServer', 'apply_rrdp_updated', 0, 'vx_apply_one_publisher',
+                  '(&mut self, publisher: PublisherHandle, staged_elements: StagedElements, rrdp_delta_elements: &mut DeltaElements)',
+                  body_only=True,
+                  ensures=[
+                      ('snapshot_gets_the_staged_changes', 'final(self).snapshot == snap_apply(old(self).snapshot, publisher, staged_as_delta(staged_elements))'),
+                      ('delta_gets_the_same_changes', '*final(rrdp_delta_elements) == de_append(*old(rrdp_delta_elements), staged_as_delta(staged_elements))'),
+                      ('nothing_else_touched', 'final(self).serial == old(self).serial && final(self).deltas == old(self).deltas && final(self).session == old(self).session'),
+                  ]),
         U.fn(RR, 'RrdpServer', 'snapshot', ensures=[('is_field', '*r == self.snapshot')]),
         U.fn(RR, 'RrdpServer', 'apply_session_reset', ensures=[
             ('restarts_at_serial_one_without_deltas', 'final(self).serial == 1 && final(self).deltas@.len() == 0'),
